@@ -219,6 +219,46 @@ class FakeClock:
         return False
 
 
+class _Port:
+    """the serial.Serial object behind the transport, as far as a receiver may touch it"""
+
+    def __init__(self):
+        self.flushed = False
+        self.in_waiting = 0
+        self.out_waiting = 0
+        self.is_open = True
+        self.port = "/dev/verif-serial"
+        self.baudrate = 38400
+
+    def reset_input_buffer(self):
+        self.flushed = True
+        self.in_waiting = 0
+
+    flushInput = reset_input_buffer
+
+    def reset_output_buffer(self):
+        pass
+
+    def flush(self):
+        pass
+
+
+class _Transport:
+    def __init__(self, port):
+        self.serial = port
+        self.written = []
+        self.loop = None
+
+    def write(self, data):
+        self.written.append(bytes(data))
+
+    def get_extra_info(self, name, default=None):
+        return self.serial if name == "serial" else default
+
+    def close(self):
+        pass
+
+
 def _chunks(stream, cuts):
     n = len(stream)
     pts = sorted({c % (n + 1) for c in cuts} | {0, n})
@@ -232,12 +272,24 @@ def feed(proto, stream, chunks, gaps=(0.0,)):
     p, child = _new(proto)
     off = 0
     exc = None
+    # the receiver is attached to a transport shaped like pyserial-asyncio's: it exposes the serial port object.  Bytes
+    # that follow a read without a pause have already arrived (they sit in the operating system's buffer): should the
+    # receiver empty the port's input buffer, they are gone - and the reference, which saw them arrive, will miss them
+    port = _Port()
+    p.connection_made(_Transport(port))
     # nothing but the receiver and these few lines runs while the clock is replaced (no Hypothesis code, no
     # harness code that reads a clock); a garbage collection inside the window starts and ends inside it
     with FakeClock() as clock:
         for k, ch in enumerate(chunks):
             if k:
-                clock.advance(gaps[(k - 1) % len(gaps)])
+                gap = gaps[(k - 1) % len(gaps)]
+                clock.advance(gap)
+                if gap > 0:
+                    port.flushed = False
+            if port.flushed:
+                off += len(ch)
+                continue
+            port.in_waiting = len(chunks[k + 1]) if k + 1 < len(chunks) and gaps[k % len(gaps)] == 0 else 0
             try:
                 p.data_received(ch)
             except Exception as e:  # noqa: the property forbids any exception here
